@@ -116,9 +116,10 @@ def run_one(sim, params):
             try:
                 res = tag.format(**args)
             except Exception as e:
+                # whether format() may raise is C16's subject; what it wrote before raising is still judged here
                 sim.probe("format.raised_%s(C16 territory)" % type(e).__name__)
-                return
-            sim.probe("format.%r" % res)
+                res = "raised %s" % type(e).__name__
+            sim.probe("format.%r" % (res if not isinstance(res, str) else "raised"))
             detail = "format(%r) -> %r on %s" % (args, res, type(tag).__name__)
             # what the class documents to (re)create
             if typ == "t1":
@@ -127,6 +128,13 @@ def run_one(sim, params):
                     allowed = set()
                 else:
                     allowed = set(range(8, lay.size)) - lay.base_reserved
+                    # what the layout created by format() itself declares reserved (lock / memory control TLVs of the
+                    # product default) must not be written either
+                    from dsim.w1 import t1t
+                    lay2 = t1t.parse_t1t(bytes(w.silicon.mem), w.silicon.hr[0])
+                    if lay2.get("status") == "ok":
+                        allowed -= set(lay2["reserved"])
+                        sim.probe("format.t1.postlayout_reserved")
             elif typ == "t3":
                 if res:
                     allowed = set(range(0, 16 * case.nblocks)) if wipe is not None else set(range(0, 16))
